@@ -1,6 +1,7 @@
 """Shared suite for the solver properties C01-C03, C05: configuration product,
 parallel execution under the recorder, TLC validation of the traces."""
 import random, multiprocessing as mp
+PMAP_TIMEOUT = int(__import__('os').environ.get('VERIF_PMAP_TIMEOUT', '300'))
 from harness import soltrace
 
 TIGHT = {"abstol": 1e-9, "reltol": 1e-9, "feastol": 1e-9}
@@ -110,8 +111,10 @@ def _run(args):
 
 def run_cases(ck, jobs, name):
     """jobs: list of (solver, instance, [cfg]); returns (runs, verdicts)"""
-    with mp.Pool(16) as pool:
-        results = pool.map(_run, jobs, chunksize=2)
+    from harness.core import pmap
+    results = pmap(ck, _run, jobs, "solsuite", timeout=PMAP_TIMEOUT, chunksize=2)
+    if results is None:
+        ck.finish()
     runs = [r for rs in results for r in rs]
     for r in runs:
         if "harness_error" in r:
